@@ -213,12 +213,16 @@ impl C05 {
         // 20 % of the budget runs with the known-finding avoidance switch off (closure-in-loop kinds)
         let raw = t.chance(1, 5) && std::env::var("C05_AVOID_ALL").is_err();
         let only = std::env::var("C05_ONLY").ok();
-        let kinds: Vec<Kind> = ALL_KINDS
+        let mut kinds: Vec<Kind> = ALL_KINDS
             .iter()
             .copied()
             .filter(|k| raw || !k.closure_in_loop())
             .filter(|k| only.as_ref().map(|o| o.split(',').any(|p| k.name().starts_with(p))).unwrap_or(true))
             .collect();
+        if kinds.contains(&Kind::ExitInClosureBaseLoop) {
+            // only about half of the generated programs offer a closure inside a loop: draw this kind twice as often
+            kinds.push(Kind::ExitInClosureBaseLoop);
+        }
         let mut kind = if kinds.is_empty() { Kind::MissingField } else { *t.pick(&kinds) };
         let mut bytes = vec![0u8; 16];
         for b in bytes.iter_mut() {
@@ -231,7 +235,12 @@ impl C05 {
         let use_base_blob = t.chance(1, 5);
         let use_base_enum = t.chance(1, 5);
         let mut decls = gen_decls(t, kind);
-        let base = Gen::new(t, GenCfg::core(tier == Tier::Thorough)).program();
+        let mut cfg = GenCfg::core(tier == Tier::Thorough);
+        if kind == Kind::ExitInClosureBaseLoop {
+            // needs a closure inside a loop in the generated program: raise the weight of the closure scenarios
+            cfg.scenario_weight = 10;
+        }
+        let base = Gen::new(t, cfg).program();
 
         // sometimes the target declaration is one of the generated program's own blobs / enums
         if use_base_blob && kind != Kind::IndexGenericField {
